@@ -952,15 +952,14 @@ impl IndexManager {
         truncated_key[..9.min(key_bytes.len())]
             .copy_from_slice(&key_bytes[..9.min(key_bytes.len())]);
 
-        if let Some(index) = self.indices.get_mut(&index_id) {
+        if self.indices.contains_key(&index_id) {
             let tombstone = UpdateEntry::new(
                 truncated_key,
                 entry.archive_location,
                 entry.size,
                 UpdateStatus::Delete,
             );
-            index.update_section.append(tombstone);
-            return true;
+            return self.append_update(index_id, tombstone);
         }
 
         false
@@ -994,7 +993,7 @@ impl IndexManager {
         truncated_key[..9.min(key_bytes.len())]
             .copy_from_slice(&key_bytes[..9.min(key_bytes.len())]);
 
-        if let Some(index) = self.indices.get_mut(&index_id) {
+        if self.indices.contains_key(&index_id) {
             let entry = UpdateEntry::new(
                 truncated_key,
                 ArchiveLocation {
@@ -1004,7 +1003,7 @@ impl IndexManager {
                 size,
                 UpdateStatus::Normal,
             );
-            return index.update_section.append(entry);
+            return self.append_update(index_id, entry);
         }
 
         false
@@ -1028,13 +1027,41 @@ impl IndexManager {
         truncated_key[..9.min(key_bytes.len())]
             .copy_from_slice(&key_bytes[..9.min(key_bytes.len())]);
 
-        if let Some(index) = self.indices.get_mut(&index_id) {
+        if self.indices.contains_key(&index_id) {
             let update =
                 UpdateEntry::new(truncated_key, entry.archive_location, entry.size, status);
-            return index.update_section.append(update);
+            return self.append_update(index_id, update);
         }
 
         false
+    }
+
+    /// Append an entry to the update section of an existing bucket.
+    ///
+    /// If the update section is full, it is flushed (merged into the sorted
+    /// section) first and the append is retried, as `add_entry` does.
+    /// Returns `false` if the bucket does not exist or the entry could not
+    /// be appended; in that case the visible contents of the index are
+    /// unchanged.
+    fn append_update(&mut self, index_id: u8, entry: UpdateEntry) -> bool {
+        match self.indices.get_mut(&index_id) {
+            Some(index) => {
+                if index.update_section.append(entry.clone()) {
+                    return true;
+                }
+            }
+            None => return false,
+        }
+
+        // Update section full -- flush (merge into sorted), then retry
+        if let Err(e) = self.flush_updates_for_bucket(index_id) {
+            warn!("Failed to flush full update section of bucket {index_id:02x}: {e}");
+            return false;
+        }
+
+        self.indices
+            .get_mut(&index_id)
+            .is_some_and(|index| index.update_section.append(entry))
     }
 
     /// Flush the update section for a bucket into the sorted section.
@@ -1548,6 +1575,68 @@ mod tests {
         // Try to update non-existent entry
         let ekey2 = create_test_ekey_2();
         assert!(!manager.update_entry(&ekey2, 10, 0x10000, 10000));
+    }
+
+    /// Fill the update section of one bucket to its capacity (60 pages x 21
+    /// entries) without triggering a flush.
+    fn manager_with_full_update_section(dir: &Path) -> (IndexManager, Vec<EncodingKey>) {
+        let capacity = (update::MIN_UPDATE_SECTION_SIZE / update::UPDATE_PAGE_SIZE)
+            * update::ENTRIES_PER_PAGE;
+        let mut manager = IndexManager::new(dir);
+        let mut keys = Vec::with_capacity(capacity);
+        for i in 0..capacity {
+            // Force every key into bucket 5: XOR of the first nine bytes is 0x05
+            let mut bytes = [0u8; 16];
+            bytes[0] = (i >> 8) as u8;
+            bytes[1] = i as u8;
+            bytes[2] = 0xF1;
+            bytes[8] = bytes[..8].iter().fold(0u8, |a, b| a ^ b) ^ 0x05;
+            let key = EncodingKey::from_bytes(bytes);
+            assert_eq!(IndexManager::bucket_for_key(&key), 5);
+            manager
+                .add_entry(&key, 1, (i as u32) * 16, 10)
+                .expect("Operation should succeed");
+            keys.push(key);
+        }
+        // Nothing flushed yet: all entries are in the update section
+        assert_eq!(manager.stats().total_entries, 0);
+        assert_eq!(manager.bucket_entry_count(5), capacity);
+        (manager, keys)
+    }
+
+    #[test]
+    fn test_remove_entry_with_full_update_section() {
+        let dir = tempfile::tempdir().expect("tempdir");
+        let (mut manager, keys) = manager_with_full_update_section(dir.path());
+
+        assert!(manager.remove_entry(&keys[0]));
+        assert!(!manager.has_entry(&keys[0]));
+        assert_eq!(manager.entry_count(), keys.len() - 1);
+        assert!(!manager.remove_entry(&keys[0]));
+    }
+
+    #[test]
+    fn test_update_entry_with_full_update_section() {
+        let dir = tempfile::tempdir().expect("tempdir");
+        let (mut manager, keys) = manager_with_full_update_section(dir.path());
+
+        assert!(manager.update_entry(&keys[7], 5, 0x5000, 5000));
+        let entry = manager.lookup(&keys[7]).expect("Entry should exist");
+        assert_eq!(entry.archive_id(), 5);
+        assert_eq!(entry.archive_offset(), 0x5000);
+        assert_eq!(entry.size, 5000);
+        assert_eq!(manager.entry_count(), keys.len());
+    }
+
+    #[test]
+    fn test_update_entry_status_with_full_update_section() {
+        let dir = tempfile::tempdir().expect("tempdir");
+        let (mut manager, keys) = manager_with_full_update_section(dir.path());
+
+        assert!(manager.update_entry_status(&keys[3], UpdateStatus::DataNonResident));
+        let entry = manager.lookup(&keys[3]).expect("Entry should exist");
+        assert_eq!(entry.archive_offset(), 3 * 16);
+        assert_eq!(manager.entry_count(), keys.len());
     }
 
     #[test]
